@@ -39,7 +39,7 @@ impl<R: Round, const B: Word> FBig<R, B> {
 
         // `smaller_than_one` is only an estimate: whether it fires must not be observable,
         // so the shortcut returns exactly what the general path would (same value, same context)
-        let shift = (-self.repr.exponent) as usize;
+        let shift = self.repr.exponent.unsigned_abs();
         let context = Context::new(self.context.precision.saturating_sub(shift));
         if self.repr.smaller_than_one() {
             return FBig::new(Repr::zero(), context);
@@ -59,11 +59,11 @@ impl<R: Round, const B: Word> FBig<R, B> {
         if self.repr.smaller_than_one() {
             // all the digits of the significand are after the radix point, and there are
             // `-exponent` of them (leading zeros included)
-            let fract_digits = (-self.repr.exponent) as usize;
+            let fract_digits = self.repr.exponent.unsigned_abs();
             return (IBig::ZERO, self.repr.significand.clone(), fract_digits);
         }
 
-        let shift = (-self.repr.exponent) as usize;
+        let shift = self.repr.exponent.unsigned_abs();
         let (hi, lo) = split_digits_ref::<B>(&self.repr.significand, shift);
         (hi, lo, shift)
     }
@@ -96,7 +96,7 @@ impl<R: Round, const B: Word> FBig<R, B> {
         }
 
         // the contexts do not depend on whether the `smaller_than_one` estimate fires
-        let shift = (-self.repr.exponent) as usize;
+        let shift = self.repr.exponent.unsigned_abs();
         let hi_ctxt = Context::new(self.context.precision.saturating_sub(shift));
         let lo_ctxt = Context::new(shift);
         if self.repr.smaller_than_one() {
@@ -137,7 +137,7 @@ impl<R: Round, const B: Word> FBig<R, B> {
             return Self::ZERO;
         } else if self.repr.smaller_than_one() {
             // same context as the general path: the number of fractional digits
-            let context = Context::new((-self.repr.exponent) as usize);
+            let context = Context::new(self.repr.exponent.unsigned_abs());
             return FBig::new(self.repr.clone(), context);
         }
 
@@ -175,7 +175,7 @@ impl<R: Round, const B: Word> FBig<R, B> {
             return self.clone();
         } else if self.repr.smaller_than_one() {
             // same context as the general path (see `round` for the rule)
-            let shift = (-self.repr.exponent) as usize;
+            let shift = self.repr.exponent.unsigned_abs();
             let context = Context::new(self.context.precision.saturating_sub(shift));
             return match self.repr.sign() {
                 Sign::Positive => FBig::new(Repr::one(), context),
@@ -218,7 +218,7 @@ impl<R: Round, const B: Word> FBig<R, B> {
             return self.clone();
         } else if self.repr.smaller_than_one() {
             // same context as the general path (see `round` for the rule)
-            let shift = (-self.repr.exponent) as usize;
+            let shift = self.repr.exponent.unsigned_abs();
             let context = Context::new(self.context.precision.saturating_sub(shift));
             return match self.repr.sign() {
                 Sign::Positive => FBig::new(Repr::zero(), context),
@@ -271,7 +271,7 @@ impl<R: Round, const B: Word> FBig<R, B> {
             // to determine if the number rounds to zero, we need to make sure |self| < 0.5
             // which is stricter than `self.repr.smaller_than_one()`
             // (same context as the general path, so that the estimate is not observable)
-            let shift = (-self.repr.exponent) as usize;
+            let shift = self.repr.exponent.unsigned_abs();
             let context = Context::new(self.context.precision.saturating_sub(shift));
             return FBig::new(Repr::zero(), context);
         }
